@@ -792,3 +792,8 @@ fn write_nodes(
         Err(poisoned) => poisoned.into_inner(),
     }
 }
+
+#[cfg(kani)]
+mod verif_kani {
+    include!(concat!(env!("REPE_VERIF_KANI"), "/fleet.rs"));
+}
